@@ -219,4 +219,41 @@ theorem readCommitted_spec (l : CLog) (s : Int) (h : Inv l)
 theorem read_sorted (l : CLog) (h : Inv l) (p : Rec → Bool) :
     (l.abs.filter p).Pairwise (fun a b => a.offset < b.offset) := h.sorted.filter p
 
+/-- `Append` never panics on a non-empty batch (with concurrency control: a single message) —
+whatever keys, values and headers it carries, including header keys too long to encode. Together
+with C14's `classify_total` this is "no NATS payload can crash the leader's append path". -/
+theorem append_total (l : CLog) (ms : List Msg) (hne : ms ≠ []) (hb : l.occ = false ∨ ms.length ≤ 1) :
+    l.append ms ≠ .panic := by
+  unfold CLog.append
+  split
+  · simp
+  · have hocc : l.checkSplit.occ = l.occ := by unfold checkSplit roll; split <;> rfl
+    simp only [hocc]
+    split
+    · rename_i hp
+      simp [Gen.Log.occBatchCmp, Cmp.evalNat] at hp
+      rcases hb with hb | hb
+      · simp [hb] at hp
+      · omega
+    · have := stamp_no_panic l.occ l.checkSplit.nextOffset ms 0
+      cases h : stamp l.occ l.checkSplit.nextOffset 0 ms with
+      | panic => exact absurd h this
+      | err e => simp
+      | ok rs =>
+        simp only [Res.bind_ok]
+        unfold write
+        have : rs ≠ [] := by
+          intro hrs; subst hrs
+          cases ms with
+          | nil => exact hne rfl
+          | cons m ms' =>
+            unfold stamp at h
+            simp only [Gen.Log.encodeErrPanics] at h
+            split at h
+            · simp at h
+            · split at h
+              · simp at h
+              · cases h2 : stamp l.occ l.checkSplit.nextOffset (0 + 1) ms' <;> simp [h2] at h
+        simp [this]
+
 end Liftbridge.Props.C01
